@@ -18,10 +18,7 @@ def fr(x):
     return from_rat(x)
 
 
-def build_panel(pd, explicit_model=True, ctor=False):
-    """pd in JSON shape (rationals as limb pairs) -> compmech Panel; ctor=True passes everything through the
-    constructor (keyword arguments) instead of setting attributes afterwards"""
-    from compmech.panel import Panel
+def panel_kwargs(pd, explicit_model=True, ctor=False):
     kw = {}
     if explicit_model or pd["model"] == "plate_w":
         kw["model"] = MODELS[pd["model"]]
@@ -51,12 +48,46 @@ def build_panel(pd, explicit_model=True, ctor=False):
     N = [fr(x) for x in pd["Ncte"]]
     if any(N):
         kw["Nxx_cte"], kw["Nyy_cte"], kw["Nxy_cte"] = (float(x) for x in N)
+    return kw
+
+
+def build_panel(pd, explicit_model=True, ctor=False):
+    """pd in JSON shape (rationals as limb pairs) -> compmech Panel; ctor=True passes everything through the
+    constructor (keyword arguments) instead of setting attributes afterwards"""
+    from compmech.panel import Panel
+    kw = panel_kwargs(pd, explicit_model, ctor)
     if ctor:
         return Panel(**kw)
     p = Panel()
     for k, v in kw.items():
         setattr(p, k, v)
     return p
+
+
+def redefine(p, pd):
+    """set every definition attribute of an existing Panel to the description (a parameter study on one object)"""
+    kw = panel_kwargs(pd, True, False)
+    for k in ("r", "alphadeg", "y1", "y2", "Nxx_cte", "Nyy_cte", "Nxy_cte", "plyt", "laminaprop"):
+        setattr(p, k, None)
+    for k, v in kw.items():
+        setattr(p, k, v)
+
+
+def perturbed(pd):
+    """another legitimate definition of the same model kind (different geometry, laminate order, flags, pre-load)"""
+    import copy
+    q = copy.deepcopy(pd)
+    q["a"] = rat(fr(pd["a"]) * 2)
+    q["b"] = rat(fr(pd["b"]) * Fraction(3, 2))
+    q["y1"], q["y2"] = rat(0), q["b"]
+    q["stack"] = list(reversed(q["stack"]))
+    q["off"] = rat(fr(pd["off"]) + Fraction(1, 16))
+    q["mu"] = rat(fr(pd["mu"]) * 3)
+    q["fl"] = [[list(reversed(ax)) for ax in row] for row in reversed(pd["fl"])]
+    q["Ncte"] = [rat(2), rat(-1), rat(1)]
+    if pd["model"] in ("cpanel", "kpanel"):
+        q["r"] = rat(fr(pd["r"]) + 3)
+    return q
 
 
 def build_bay(pd):
@@ -120,7 +151,19 @@ def observe(pd, req, fresh_model=True):
     if req.get("via") == "bay":
         return observe_bay_aero(pd, req)
     """run the request on a freshly defined real Panel; returns (dense matrix as dyadics, flags_ok)"""
-    p = build_panel(pd, explicit_model=fresh_model, ctor=bool(req.get("ctor")))
+    if req.get("sweep") and req["q"] in ("k0", "kG0", "kM"):
+        # parameter study on ONE object: evaluate another definition first, then re-define and ask again
+        p = build_panel(perturbed(pd), explicit_model=True)
+        if req["q"] == "kG0":
+            p.Nxx, p.Nyy, p.Nxy = 1.5, -0.5, 0.25
+        p.calc_k0(silent=True)
+        if req["q"] == "kG0":
+            p.calc_kG0(silent=True)
+        elif req["q"] == "kM":
+            p.calc_kM(silent=True)
+        redefine(p, pd)
+    else:
+        p = build_panel(pd, explicit_model=fresh_model, ctor=bool(req.get("ctor")))
     kw = {}
     if req.get("size", 0):
         kw = dict(size=req["size"], row0=req["row0"], col0=req["col0"])
@@ -409,6 +452,8 @@ def random_req(rng, pd, q):
     if q in ("k0", "kG0", "kM") and rng.random() < 0.25:
         r["nofin"] = True
     if q in ("k0", "kG0", "kM") and rng.random() < 0.3:
+        r["sweep"] = True
+    if q in ("k0", "kG0", "kM") and rng.random() < 0.3:
         off = rng.randint(1, 9)
         r.update(size=size + off + rng.randint(0, 7), row0=off, col0=off)
     if q == "kG0":
@@ -558,6 +603,8 @@ def run_prop(prop, qs, tier, seed, build, nrand_quick=40, nrand_thorough=600, wh
                 r["ctor"] = True
             if k % 4 == 2 and r["q"] in ("k0", "kG0", "kM"):
                 r["nofin"] = True
+            if k % 5 == 3 and r["q"] in ("k0", "kG0", "kM"):
+                r["sweep"] = True
         try:
             obs, ok = observe(pd, r, fresh_model=(k % 3 != 0))
         except Exception as ex:
